@@ -234,10 +234,11 @@ PROPS = {
         undecided=['size of the second-order residual (a Taylor remainder)',
                    'behaviour at the pitch singularity']),
     'C04': dict(
-        rules=[geo.geo_curv, geo.parity, errmodel.em_linear, errmodel.em_2d, errmodel.em_units,
+        rules=[geo.geo_curv, geo.parity, errmodel.em_linear, errmodel.prop_consist, errmodel.em_2d, errmodel.em_units,
                errmodel.em_frame, errmodel.em_gravgrad, errmodel.es_first, kernel.ker_consist,
                kernel.sib_grav],
-        decided=['F, B_gyro, B_accel equal the symbolic linearisation of the navigation equations '
+        decided=['propagate_errors: one-step map consistent with x\' = F x + B_gyro e_g + B_accel e_a, initial error through transform_to_internal of the first row, output through transform_to_output',
+                 'F, B_gyro, B_accel equal the symbolic linearisation of the navigation equations '
                  '(assembled from earth.*) in the error coordinates that correct_pva implements: '
                  'exactly for a stationary vehicle and in every velocity-dependent entry the model '
                  'has; the neglected remainder is proportional to velocity',
@@ -248,8 +249,8 @@ PROPS = {
                  'earth.gravity; integrator and model share the earth functions (kernel tied to '
                  'them by first-order consistency)'],
         undecided=['numerical size of the neglected velocity-proportional couplings along a given '
-                   'trajectory', 'accuracy of the trapezoidal discrete propagation '
-                   '(propagate_errors) and of the discretisation in the filters']),
+                   'trajectory', 'order of accuracy of the discrete propagation beyond first-order '
+                   'consistency (propagate_errors: decided; filters: exact Van Loan, C08)']),
     'C03': dict(
         rules=[frames.frame_suffix, simrules.sim_inc, simrules.sim_struct, simrules.sim_kin,
                simrules.sim_integ],
